@@ -195,6 +195,37 @@ def distinct_containers(self: Ref['mqtt.client.pubsubs.MQTTProtocol']) -> bool:
 
 
 @spec
+def no_other_timer(a: Ref['obj']) -> bool:
+    """two-state: the only timer created by this call (if any) is a"""
+    return forall(lambda t: implies(is_fresh(obj_at(t)) and isa(obj_at(t), 'DelayedCall'), obj_at(t) == a))
+
+
+@spec
+def own_ok(self: Ref['mqtt.client.pubsubs.MQTTProtocol']) -> bool:
+    """I.own: every ACTIVE retry timer of this protocol is THE timer of an entry of the matching window - no stray
+    timers (C13), and a retry callback can only fire for a request that is still awaiting its acknowledgement.
+    NOT part of inv(self): it is not an invariant of the code.  _refillPublish (window[id] = request) and handlePUBREC
+    (release[id] = reply) overwrite an entry that carries the same identifier, which makeId permits (finding D15);
+    the overwritten entry's timer then stays ACTIVE without an entry (finding D15b, witnesses/D15b.py).  The timer
+    callbacks, the four handlers that remove entries and the API calls were proved to preserve it; those two were not."""
+    return forall(lambda t: implies(
+        isa(obj_at(t), 'DelayedCall') and is_int(obj_at(t).t_status) and obj_at(t).t_status == 0 and obj_at(t).t_owner == self
+        and is_int(obj_at(t).t_fn) and is_ref(obj_at(t).t_arg),
+        implies(obj_at(t).t_fn == fn('mqtt.client.pubsubs.MQTTProtocol._publishError'),
+                is_int(obj_at(t).t_arg.msgId) and contains(W(self), obj_at(t).t_arg.msgId)
+                and W(self)[obj_at(t).t_arg.msgId] == obj_at(t).t_arg and obj_at(t).t_arg.alarm == obj_at(t))
+        and implies(obj_at(t).t_fn == fn('mqtt.client.pubsubs.MQTTProtocol._pubrelError'),
+                    is_int(obj_at(t).t_arg.msgId) and contains(R(self), obj_at(t).t_arg.msgId)
+                    and R(self)[obj_at(t).t_arg.msgId] == obj_at(t).t_arg and obj_at(t).t_arg.alarm == obj_at(t))
+        and implies(obj_at(t).t_fn == fn('mqtt.client.pubsubs.MQTTProtocol._subscribeError'),
+                    is_int(obj_at(t).t_arg.msgId) and contains(S(self), obj_at(t).t_arg.msgId)
+                    and S(self)[obj_at(t).t_arg.msgId] == obj_at(t).t_arg and obj_at(t).t_arg.alarm == obj_at(t))
+        and implies(obj_at(t).t_fn == fn('mqtt.client.pubsubs.MQTTProtocol._unsubscribeError'),
+                    is_int(obj_at(t).t_arg.msgId) and contains(U(self), obj_at(t).t_arg.msgId)
+                    and U(self)[obj_at(t).t_arg.msgId] == obj_at(t).t_arg and obj_at(t).t_arg.alarm == obj_at(t))))
+
+
+@spec
 def inv(self: Ref['mqtt.client.pubsubs.MQTTProtocol']) -> bool:
     return (wf_proto(self) and distinct_containers(self)
             and inv_W(self) and inv_R(self) and inv_S(self) and inv_U(self) and inv_X(self) and inv_Q(self))
